@@ -254,6 +254,14 @@ pub fn tactical_roots() -> Vec<GameSpec> {
         "8/5P1k/5K2/8/8/8/8/8 w - - 0 1",
         "8/8/8/8/8/2k5/2p5/K7 b - - 0 1",
         "6k1/4P3/6K1/8/8/8/8/8 w - - 0 1",
+        // forced replies without any quiet move: the only legal move is a losing capture (at the root, and one move
+        // below the root after a smothering check), or a winning one; each with its colour-mirrored twin
+        "6k1/8/8/2b5/8/8/4QnPP/6RK w - - 0 1",
+        "6rk/4qNpp/8/8/2B5/8/8/6K1 b - - 0 1",
+        "6rk/4q1pp/8/4N3/2B5/8/8/6K1 w - - 0 1",
+        "6k1/8/8/2b5/4n3/8/4Q1PP/6RK b - - 0 1",
+        "7k/8/8/8/8/8/6Pq/6RK w - - 0 1",
+        "6rk/6pQ/8/8/8/8/8/7K b - - 0 1",
         // very many legal moves (late-move-reduction table bounds)
         "R6R/3Q4/1Q4Q1/4Q3/2Q4Q/Q4Q2/pp1Q4/kBNN1KB1 w - - 0 1",
         "3Q4/1Q4Q1/4Q3/2Q4R/Q4Q2/3Q4/1Q4Rp/1K1BBNNk w - - 0 1",
